@@ -322,15 +322,16 @@ func (r *Reader) initFields() error {
 }
 
 func (r *Reader) getSource(ent *TOCEntry) (_ *TOCEntry, err error) {
-	if ent.Type == "hardlink" {
+	// A chain of hardlinks longer than the number of entries contains a cycle.
+	for i := 0; ent.Type == "hardlink"; i++ {
+		if i > len(r.m) {
+			return nil, fmt.Errorf("%q is a hardlink but its link chain is cyclic", ent.Name)
+		}
 		org, ok := r.m[cleanEntryName(ent.LinkName)]
 		if !ok {
 			return nil, fmt.Errorf("%q is a hardlink but the linkname %q isn't found", ent.Name, ent.LinkName)
 		}
-		ent, err = r.getSource(org)
-		if err != nil {
-			return nil, err
-		}
+		ent = org
 	}
 	return ent, nil
 }
